@@ -35,6 +35,7 @@ type HarnessSpec struct {
 	Quick    TierSpec `json:"quick"`
 	Thorough TierSpec `json:"thorough"`
 	Tier     string   `json:"tier_label"` // backend tier (T-mem, T-fs, ...)
+	Threads  bool     `json:"threads"`    // thread-mode harness: native runs use -race and are repeated
 }
 
 type CheckSpec struct {
@@ -59,6 +60,7 @@ type replayFile struct {
 }
 
 type nativeResult struct {
+	Race   bool   // the Go race detector fired during the native run
 	Status string // ok | failed | panic | aborted | error
 	Labels []string
 	Msg    string
@@ -83,6 +85,13 @@ func harnessPkgFunc(name string) (pkgPath, fn string) {
 // nativeRun compiles the harness package natively (overlay, native vsym) and
 // runs the given replay files; returns one result per replay.
 func nativeRun(repo, verif, work string, harness string, replays []string, timeout time.Duration) ([]nativeResult, error) {
+	return nativeRunOpt(repo, verif, work, harness, replays, timeout, false, 1)
+}
+
+// nativeRunOpt: with race=true the test binary is built with the Go race
+// detector and every replay is repeated up to repeat times (schedules cannot
+// be forced natively); a detected data race marks every result.
+func nativeRunOpt(repo, verif, work string, harness string, replays []string, timeout time.Duration, race bool, repeat int) ([]nativeResult, error) {
 	pkgPath, fn := harnessPkgFunc(harness)
 	rel := strings.TrimPrefix(strings.TrimPrefix(pkgPath, repoMod), "/")
 	pkgDir := filepath.Join(repo, rel)
@@ -128,7 +137,12 @@ func TestVReplay(t *testing.T) {
 		target = "."
 	}
 	binPath := filepath.Join(work, "replay_"+fn+".test")
-	build := exec.Command("go", "test", "-c", "-vet=off", "-overlay", ovPath, "-o", binPath, target)
+	buildArgs := []string{"test", "-c", "-vet=off", "-overlay", ovPath, "-o", binPath}
+	if race {
+		buildArgs = append(buildArgs, "-race")
+	}
+	buildArgs = append(buildArgs, target)
+	build := exec.Command("go", buildArgs...)
 	build.Dir = repo
 	build.Env = append(os.Environ(), "GOFLAGS=-mod=mod", "GOPROXY=off", "GOSUMDB=off", "GOTOOLCHAIN=local")
 	if bo, err := build.CombinedOutput(); err != nil {
@@ -136,7 +150,7 @@ func TestVReplay(t *testing.T) {
 	}
 	cmd := exec.Command(binPath, "-test.v", "-test.run", "^TestVReplay$", "-test.timeout", fmt.Sprintf("%ds", int(timeout.Seconds())))
 	cmd.Dir = work
-	cmd.Env = append(os.Environ(), "VSYM_REPLAY_LIST="+listPath)
+	cmd.Env = append(os.Environ(), "VSYM_REPLAY_LIST="+listPath, fmt.Sprintf("VSYM_REPEAT=%d", repeat))
 	var out bytes.Buffer
 	cmd.Stdout = &out
 	cmd.Stderr = &out
@@ -168,6 +182,11 @@ func TestVReplay(t *testing.T) {
 				res[idx].Site = m[4][j+7:]
 				res[idx].Msg = m[4][:j]
 			}
+		}
+	}
+	if race && strings.Contains(out.String(), "WARNING: DATA RACE") {
+		for i := range res {
+			res[i].Race = true
 		}
 	}
 	if seen < len(replays) {
@@ -325,7 +344,13 @@ func cmdCheck(args []string) {
 			os.WriteFile(p, b, 0644)
 			files = append(files, p)
 		}
-		nres, err := nativeRun(*repo, *verif, work, hr.spec.Name, files, 120*time.Second)
+		var nres []nativeResult
+		var err error
+		if hr.spec.Threads {
+			nres, err = nativeRunOpt(*repo, *verif, work, hr.spec.Name, files, 300*time.Second, true, 300)
+		} else {
+			nres, err = nativeRun(*repo, *verif, work, hr.spec.Name, files, 120*time.Second)
+		}
 		if err != nil {
 			fmt.Fprintf(os.Stderr, "native replay failed: %v\n", err)
 		}
@@ -343,11 +368,13 @@ func cmdCheck(args []string) {
 					}
 				}
 				// a native panic while replaying an assertion failure is still a real failure of the code
-				if nr.Status == "panic" {
+				if nr.Status == "panic" || nr.Race {
 					confirmed = true
 				}
 			case "panic":
 				confirmed = nr.Status == "panic"
+			case "race":
+				confirmed = nr.Race
 			case "lock":
 				confirmed = nr.Status == "timeout" || nr.Status == "panic" || nr.Status == "failed"
 			case "hang":
@@ -386,7 +413,13 @@ func cmdCheck(args []string) {
 			if len(files) == 0 {
 				continue
 			}
-			nres, err := nativeRun(*repo, *verif, work, hr.spec.Name, files, 120*time.Second)
+			var nres []nativeResult
+			var err error
+			if hr.spec.Threads {
+				nres, err = nativeRunOpt(*repo, *verif, work, hr.spec.Name, files, 300*time.Second, true, 20)
+			} else {
+				nres, err = nativeRun(*repo, *verif, work, hr.spec.Name, files, 120*time.Second)
+			}
 			if err != nil {
 				fmt.Fprintf(os.Stderr, "native validation failed for %s: %v\n", hr.spec.Name, err)
 				inconclusive = append(inconclusive, "native-validation-error:"+hr.spec.Name)
